@@ -63,6 +63,14 @@ CHECKS = {
             'shrinks a failure to a minimal history.',
             'Two fixed user texts and two fixed configs; equality of a user write with the text uncrustify last left is treated as '
             '"not an edit" (indistinguishable by the md5 protocol).', 'DESIGN.md §3 C14'),
+    'C11': ('exploration', 'all ordered pairs of a poisoner/victim pool inside batch invocations + seeded random sequences; differential '
+            'oracle batch output == separate invocation; greedy sequence shrinking',
+            'A pool of ~57 synthetic state-poisoning files and seeded corpus files of every language: for four configurations and three '
+            'language modes (extension, -l C, -l CPP) every ordered pair is made adjacent in a positional / -F batch, plus random '
+            'configurations with random sequences of 20..120 files; every file\'s batch output must equal its separate-invocation '
+            'output and the batch must exit 0; a mismatch is shrunk to the shortest predecessor chain.',
+            'Interference that needs three or more specific predecessors is only sampled; configurations are four fixed ones plus '
+            'seeded random draws.', 'DESIGN.md §3 C11'),
 }
 
 ALL = ['C%02d' % i for i in range(1, 21)]
